@@ -41,6 +41,18 @@ def polarity(t):
             if base is not None and base > (0 if op == "lshift" else 1):
                 return polarity(a[1])
             return None
+        if op == "mod" and len(a) == 2 and hasattr(a[1], "const_value") and a[1].const_value() == 2 and hasattr(a[0], "single_atom"):
+            # floor(k / 2^s) % 2 : column j holds bit s_j
+            fa = a[0].single_atom()
+            q = fa.args[0] if isinstance(fa, T.App) and fa.op in ("floor", "trunc", "floordiv") else None
+            sm = q.single_mono() if q is not None and hasattr(q, "single_mono") else None
+            if sm is not None:
+                for at_, pw_ in sm[0]:
+                    if isinstance(at_, T.App) and at_.op == "pow" and pw_ == -1:
+                        return polarity(T.P(at_))
+            if isinstance(fa, T.App) and fa.op == "floordiv" and len(fa.args) == 2:
+                return polarity(fa.args[1])
+            return None
         if op == "rshift":
             return polarity(a[1])  # (k >> s) & 1: column j holds bit s_j, so the column significance follows the shift amounts
         if op == "bitand":
